@@ -1,0 +1,61 @@
+//go:build verif
+
+package filecachepb
+
+// Contracts for govc (see /verif/DESIGN.md).  Comment-only file.
+//
+// C14, file-cache codec, the part under contract: the weekly protection
+// schedule.  What is written to the cache for a day of the week is that day's
+// interval, and what is read back for a day is what was stored for that day
+// (no day takes another day's interval, in either direction).  The rest of the
+// codec (profiles, devices, access settings, blocking modes) is not under
+// contract.
+
+//@ import filter github.com/AdguardTeam/AdGuardDNS/internal/filter
+//@ import agdtime github.com/AdguardTeam/AdGuardDNS/internal/agdtime
+
+//@ import time time
+//@ func (*time.Location).String
+//@   modifies nothing
+//@ func agdtime.LoadLocation
+//@   modifies nothing
+//@   ensures err == nil ==> l != nil
+
+// sameDay(p, i): the stored interval p is the internal interval i.
+//@ pred sameDay(p *DayInterval, i *filter.DayInterval) = (i == nil ==> p == nil) && (i != nil ==> p != nil && p.Start == i.Start && p.End == i.End)
+// readDay(i, p): the internal interval i is the stored interval p (minutes fit sixteen bits by validation; the conversion truncates).
+//@ pred readDay(i *filter.DayInterval, p *DayInterval) = (p == nil ==> i == nil) && (p != nil ==> i != nil && i.Start == wrap(p.Start, uint16) && i.End == wrap(p.End, uint16))
+
+//@ func dayIntervalToProtobuf
+//@   property C14
+//@   modifies heap
+//@   preserves filter.DayInterval.*, filter.ConfigSchedule.*, DayInterval.*, allelems(*filter.DayInterval)
+//@   ensures the-interval-as-it-is: sameDay(ivl, i) && (ivl != nil ==> fresh(ivl))
+
+//@ func (*DayInterval).toInternal
+//@   property C14
+//@   nilrecv
+//@   modifies heap
+//@   preserves DayInterval.*, filter.DayInterval.*, FilterConfig_Schedule.*, FilterConfig_WeeklySchedule.*
+//@   ensures the-interval-as-it-was-stored: readDay(i, x) && (i != nil ==> fresh(i))
+
+//@ func scheduleToProtobuf
+//@   property C14
+//@   requires c != nil ==> c.Week != nil && c.TimeZone != nil
+//@   modifies heap
+//@   preserves filter.DayInterval.*, filter.ConfigSchedule.*, allelems(*filter.DayInterval)
+//@   ensures c == nil ==> conf == nil
+//@   ensures every-day-stores-its-own-interval: c != nil ==> conf != nil && conf.Week != nil &&
+//@             sameDay(conf.Week.Sun, c.Week[0]) && sameDay(conf.Week.Mon, c.Week[1]) && sameDay(conf.Week.Tue, c.Week[2]) && sameDay(conf.Week.Wed, c.Week[3]) &&
+//@             sameDay(conf.Week.Thu, c.Week[4]) && sameDay(conf.Week.Fri, c.Week[5]) && sameDay(conf.Week.Sat, c.Week[6])
+
+//@ func (*FilterConfig_Schedule).toInternal
+//@   property C14
+//@   nilrecv
+//@   requires x != nil ==> x.Week != nil
+//@   modifies heap
+//@   preserves DayInterval.*, FilterConfig_Schedule.*, FilterConfig_WeeklySchedule.*
+//@   ensures x == nil ==> c == nil && err == nil
+//@   ensures every-day-reads-its-own-interval: x != nil && err == nil ==> c != nil && c.Week != nil &&
+//@             readDay(c.Week[0], x.Week.Sun) && readDay(c.Week[1], x.Week.Mon) && readDay(c.Week[2], x.Week.Tue) && readDay(c.Week[3], x.Week.Wed) &&
+//@             readDay(c.Week[4], x.Week.Thu) && readDay(c.Week[5], x.Week.Fri) && readDay(c.Week[6], x.Week.Sat)
